@@ -59,7 +59,7 @@ func (data UnbondDataV3) basicCheck(tx *Transaction, context *state.CheckState) 
 
 	if stake != nil && stake.Sign() == 1 {
 		wlStake.Add(wlStake, stake)
-	} else if wlStake.Cmp(data.Value) < 0 {
+	} else if wlStake.Cmp(data.Value) < 0 || wlStake.Sign() != 1 {
 		if wlStake.Sign() != 1 {
 			return &Response{
 				Code: code.StakeNotFound,
